@@ -45,6 +45,8 @@ def get(name):
         return P(script="unicode", n_apps=1)
     if name == "holes":         # C04: size classes filled by explicit claims (numeric and decoys), holes, then allocate
         return P(script="holes", n_apps=2)
+    if name == "moods":             # C15 C17: every combination of sides and reported moods, usage database on
+        return P(script=name, n_apps=2, kf="allow")
     if name == "warm-order":        # C03 C04 C07: sides come back after a restart in every order, retire by every route, claim again
         return P(script=name, n_apps=2)
     if name == "lingering":         # C08 C02 C01 C11 C14: one side over several connections, retirement elsewhere, then they speak
@@ -80,7 +82,7 @@ def cfg_for(name, seed):
     if name == "reincarnate":        # with and without a usage database, in turn
         return [{"allow_list": True, "usage": False, "blur": None}, {"allow_list": True, "usage": True, "blur": None},
                 {"allow_list": False, "usage": False, "blur": 60}, {"allow_list": True, "usage": True, "blur": 3600}][seed % 4]
-    if name in ("scale-time",):      # usage database on (C15), with and without blur
+    if name in ("scale-time", "moods"):      # usage database on (C15), with and without blur
         return USAGE_CFGS[seed % len(USAGE_CFGS)]
     if name.startswith("scale-") or name in ("late-sweep", "stale-ns", "crowd-retry", "reuse-after-prune", "dst", "np-cross", "pipeline", "lingering", "warm-order"):
         return G.CONFIGS[seed % len(G.CONFIGS)]
